@@ -26,7 +26,7 @@ import random
 
 import numpy as np
 
-from harness import data, sky
+from harness import data, par, sky
 from harness.yawenv import scratch
 
 
@@ -137,6 +137,29 @@ def pick(scen, n, rng):
     return top + rng.sample(rest, min(len(rest), n - len(top)))
 
 
+def realise_job(ctx, job) -> None:
+    """one scenario on the real library (runs in a worker process; ctx is a collector)"""
+    import shutil
+    from pathlib import Path
+
+    fam, sc, exp, emb, work = job
+    work = Path(work)
+    try:
+        try:
+            obs = sky.realise(sc, exp, work, emb, want=("cross",) if sc.rweight is not None else ("cross", "auto"))
+        except Exception as exc:  # noqa: BLE001
+            ctx.violation(f"C01|measure|{fam}|raises_{type(exc).__name__}", dict(family=fam, error=repr(exc)[:300], ref=[dict(o) for o in exp["ref"]]))
+            return
+        ctx.evaluated(1, (fam, emb, repr(exp["ref"]), repr(exp["unk"])) if interesting(exp) > 0 else None)
+        ctx.validated(1)
+        if sc.rweight is not None:
+            compare_weighted(ctx, fam, sc, exp, obs, emb)
+        else:
+            compare_counts(ctx, "C01", fam, sc, exp, obs, emb)
+    finally:
+        shutil.rmtree(work, ignore_errors=True)
+
+
 def run(ctx) -> None:
     data.import_yaw()
     rng = random.Random(ctx.seed)
@@ -148,32 +171,26 @@ def run(ctx) -> None:
     pair_iteration(ctx)
     F = families(quick)
     embs = ["equator", "ra_wrap", "meridian_pole", "tilted"] if quick else list(sky.EMBEDDINGS)
-    nreal = 8 if quick else 120
+    nreal = 40 if quick else 400
     with scratch("c01_") as root:
         n = 0
-        for fam, sc in F.items():
+        jobs = []
+        for sc in F.values():
             sc.derive()
-            res, scen = sky.model_check(ctx, f"Sky ideal, family {fam}", sc, sky.DESIGN_INVS)
+        outs = sky.model_check_many(ctx, [(f"Sky ideal, family {fam}", sc, sky.DESIGN_INVS, {}) for fam, sc in F.items()])
+        for (fam, sc), (res, scen) in zip(F.items(), outs):
             ctx.require(res.ok, f"Sky ideal ({fam}) violated: {res.error_name}")
             ctx.require(len(scen) > 0, f"no scenarios printed for {fam}")
             ctx.extra.setdefault("families", {})[fam] = dict(scenarios=len(scen), lo=sc.lo, hi=sc.hi, theta_impl=sc.theta_impl, unit=sc.unit)
             for exp in pick(scen, nreal, rng):
                 emb = embs[n % len(embs)]
                 n += 1
-                try:
-                    obs = sky.realise(sc, exp, root / f"s{n % 8}", emb, want=("cross",) if sc.rweight is not None else ("cross", "auto"))
-                except Exception as exc:  # noqa: BLE001
-                    ctx.violation(f"C01|measure|{fam}|raises_{type(exc).__name__}", dict(family=fam, error=repr(exc)[:300], ref=[dict(o) for o in exp["ref"]]))
-                    continue
-                ctx.evaluated(1, (fam, emb, repr(exp["ref"]), repr(exp["unk"])) if interesting(exp) > 0 else None)
-                ctx.validated(1)
-                if sc.rweight is not None:
-                    compare_weighted(ctx, fam, sc, exp, obs, emb)
-                    continue
-                compare_counts(ctx, "C01", fam, sc, exp, obs, emb)
-                if len(ctx.samples) < 5 and interesting(exp) > 3:
-                    ctx.sample(dict(family=fam, embedding=emb, ref=[dict(o) for o in exp["ref"]], unk=[dict(o) for o in exp["unk"]],
-                                    expected_cross=sky.nested(exp["cross"]), linked=sorted(map(list, exp["linked"]))))
+                jobs.append((fam, sc, exp, emb, str(root / f"job{n}")))
+        par.pmap(ctx, realise_job, jobs)
+        for fam, sc, exp, emb, _ in jobs:
+            if len(ctx.samples) < 5 and interesting(exp) > 3:
+                ctx.sample(dict(family=fam, embedding=emb, ref=[dict(o) for o in exp["ref"]], unk=[dict(o) for o in exp["unk"]],
+                                expected_cross=sky.nested(exp["cross"]), linked=sorted(map(list, exp["linked"]))))
         # deviations: TLC must find the pruning counterexamples; they are replayed on the real code
         for dev, fam in (("RadiiFromLargestCatalog", "angular"), ("MaxAngleFloored", "low_redshift")):
             sc = F[fam]
